@@ -122,6 +122,8 @@ def C02(ctx):
 
 def C03(ctx):
     m = model(ctx.repo)
+    from .rules import wps
+    wps.rule_wps_epilogue(ctx, m)
     for F in _kernels(ctx, m):
         _py_distance_rules(ctx, m, F, ['prune', 'dom'])
     for kir in (True, False):
@@ -149,6 +151,7 @@ def C04(ctx):
     from .rules import wps
     wps.rule_wps_writers(ctx, m, affinity=False, tier=ctx.tier)
     wps.rule_pyx_direct_matrix(ctx, m)
+    wps.rule_wps_epilogue(ctx, m)
     if ctx.tier == 'thorough':
         wps.rule_wps_readers(ctx, m, affinity=False)
     ctx.floor('R-REC', 6, 'python matrix facts')
